@@ -1,10 +1,11 @@
 package scen
 
 import (
-	"github.com/libp2p/go-libp2p/core/peer"
 	"berty.tech/go-orbit-db/pubsub/oneonone"
 	"context"
 	"fmt"
+	"github.com/libp2p/go-libp2p/core/peer"
+	"os"
 	"sort"
 	"strings"
 	"sync"
@@ -414,6 +415,90 @@ func runC18Case(c c18Case) (string, []explore.Violation) {
 	return fmt.Sprintf("parked=%d", parkedAtInjection), vs
 }
 
+// runC18DiskDrop: an instance on a real directory (real leveldb cache) holds the dropped database and others whose
+// files live next to it: an alias (the same manifest opened under a longer path) and/or a database with an empty
+// name. After Drop, closing and reopening the directory, every other database still loads its acknowledged data.
+func runC18DiskDrop(kind, victim string) (string, []explore.Violation) {
+	id := fmt.Sprintf("on disk: %s, drop of %s, siblings keep their data", kind, victim)
+	var vs []explore.Violation
+	dir, err := os.MkdirTemp("", "verif-c18-")
+	if err != nil {
+		return "harness: " + err.Error(), nil
+	}
+	defer os.RemoveAll(dir)
+	net := sim.NewNet()
+	net.PubSub.AutoDeliver = true
+	rPeer := net.AddPeer("R")
+	open := func() (iface.OrbitDB, error) {
+		return orbitdb.NewOrbitDB(bg, rPeer.API(), &orbitdb.NewOrbitDBOptions{Directory: &dir,
+			DirectChannelFactory: net.PubSub.DirectChannelFactory(rPeer), PubSub: net.PubSub.PubSubFor(rPeer)})
+	}
+	db, err := open()
+	if err != nil {
+		return "harness: " + err.Error(), nil
+	}
+	stores := map[string]iface.Store{}
+	addrs := map[string]string{}
+	mk := func(label string, st iface.Store, err error) bool {
+		if err != nil {
+			return false // a database this instance refuses to create is simply not part of the case
+		}
+		stores[label], addrs[label] = st, st.Address().String()
+		_ = writeAny(st, label+"-1")
+		_ = writeAny(st, label+"-2")
+		return true
+	}
+	m, err := db.Create(bg, "main", kind, &orbitdb.CreateDBOptions{Replicate: boolp(false)})
+	if !mk("main", m, err) {
+		return "harness: cannot create the main database", nil
+	}
+	al, err := db.Open(bg, addrs["main"]+"/alias", &orbitdb.CreateDBOptions{Replicate: boolp(false)})
+	mk("alias", al, err)
+	o, err := db.Create(bg, "other", kind, &orbitdb.CreateDBOptions{Replicate: boolp(false)})
+	mk("other", o, err)
+	e, err := db.Create(bg, "", kind, &orbitdb.CreateDBOptions{Replicate: boolp(false)})
+	mk("noname", e, err)
+	if _, ok := stores[victim]; !ok {
+		_ = db.Close()
+		return "skipped: the instance refuses a database of this form", nil
+	}
+	_ = sim.Quiesce()
+	views := map[string]string{}
+	for l, st := range stores {
+		views[l] = viewAny(st)
+	}
+	if err := stores[victim].Drop(); err != nil {
+		vs = append(vs, explore.Violation{Signature: "drop-failed:on-disk", Detail: id + ": " + err.Error()})
+	}
+	_ = db.Close()
+	_ = sim.Quiesce()
+	if db, err = open(); err != nil {
+		return "reopen failed", append(vs, explore.Violation{Signature: "directory-not-reopenable-after-drop", Detail: id + ": " + err.Error()})
+	}
+	defer func() { _ = db.Close(); _ = sim.Quiesce() }()
+	for l, a := range addrs {
+		if l == victim {
+			continue
+		}
+		if victim == "main" && l == "alias" {
+			// the alias lives under the dropped database's own path ("<address>/alias"): its files are inside the
+			// directory tree that is this database's local data, so their removal is not judged
+			continue
+		}
+		st, err := db.Open(bg, a, &orbitdb.CreateDBOptions{Replicate: boolp(false)})
+		if err != nil {
+			vs = append(vs, explore.Violation{Signature: "drop-removed-sibling-data:on-disk", Detail: fmt.Sprintf("%s: %s cannot be opened again: %v", id, l, err)})
+			continue
+		}
+		_ = st.Load(bg, -1)
+		_ = sim.Quiesce()
+		if v := viewAny(st); v != views[l] {
+			vs = append(vs, explore.Violation{Signature: "drop-removed-sibling-data:on-disk", Detail: fmt.Sprintf("%s: %s showed %q before the drop of %s and shows %q after reopening the directory", id, l, views[l], victim, v)})
+		}
+	}
+	return "ok", vs
+}
+
 // runC18ChannelFault: the instance's pairwise direct channel (pubsub/oneonone) over a scripted pubsub whose
 // Subscribe fails k times: Connect reports the fault; afterwards Send, a second Connect and Close must all
 // return (state-based: at quiescence none of them is still blocked).
@@ -483,7 +568,7 @@ var _ ipfslog.Entry
 func init() {
 	explore.Register(&explore.CheckDef{
 		ID: "C18", Level: "exploration",
-		Rule:   "cross product, each case on a fresh world: store type x moment {idle; in-flight write parked at each of 6 points (begin, block write, after append, head put, after persist, after view update); in-flight replication parked at each of 5 points (fetch, before slot, after dequeue, before done, before load-complete); in-flight Load parked in a fetch} x injection {store.Close, store.Close twice, orbitdb.Close, orbitdb.Close twice, store.Drop, Close then Drop, Close + reopen the same database + Close of the stale handle + orbitdb.Close} x {alone, with a sibling database on the same instance, with a sibling created through the same options value}. After the injection everything parked is released and every operation is issued once on the closed object. Oracle at quiescence (state-based, no timeouts): every call has returned, no panic, the go-orbit-db goroutines still alive are exactly those present before the store was opened (none after orbitdb.Close), after the instance is closed at the end none at all; reopening and loading yields all acknowledged entries, Drop removed this database's cache, left the sibling untouched and the dropped store no longer serves what was acknowledged before the drop. Plus the instance's pairwise direct channel (pubsub/oneonone over a scripted pubsub) whose subscription fails once or twice: afterwards Send and Close must not block on the channel's lock. Non-trivial = cases with a goroutine parked mid-operation at the injection.",
+		Rule:   "cross product, each case on a fresh world: store type x moment {idle; in-flight write parked at each of 6 points (begin, block write, after append, head put, after persist, after view update); in-flight replication parked at each of 5 points (fetch, before slot, after dequeue, before done, before load-complete); in-flight Load parked in a fetch} x injection {store.Close, store.Close twice, orbitdb.Close, orbitdb.Close twice, store.Drop, Close then Drop, Close + reopen the same database + Close of the stale handle + orbitdb.Close} x {alone, with a sibling database on the same instance, with a sibling created through the same options value}. After the injection everything parked is released and every operation is issued once on the closed object. Oracle at quiescence (state-based, no timeouts): every call has returned, no panic, the go-orbit-db goroutines still alive are exactly those present before the store was opened (none after orbitdb.Close), after the instance is closed at the end none at all; reopening and loading yields all acknowledged entries, Drop removed this database's cache, left the sibling untouched and the dropped store no longer serves what was acknowledged before the drop. Plus Drop on a real directory (real leveldb cache) next to an alias of the same manifest, another database and a database with an empty name: after reopening the directory every other database shows what it showed before. Plus the instance's pairwise direct channel (pubsub/oneonone over a scripted pubsub) whose subscription fails once or twice: afterwards Send and Close must not block on the channel's lock. Non-trivial = cases with a goroutine parked mid-operation at the injection.",
 		Units:  func(tier string) []explore.Unit { return explore.ChunkUnits("c18-"+tier, 16) },
 		Budget: func(tier string) float64 { return 400 },
 		RunUnit: func(c *explore.Ctx) {
@@ -492,6 +577,12 @@ func init() {
 			for _, cs := range c18Cases(strings.TrimPrefix(prefix, "c18-")) {
 				cs := cs
 				cases = append(cases, explore.Case{ID: cs.ID(), Nontrivial: cs.Setup != "idle", Run: func() (string, []explore.Violation) { return runC18Case(cs) }})
+			}
+			for _, kind := range []string{"eventlog", "keyvalue"} {
+				for _, victim := range []string{"main", "alias", "other", "noname"} {
+					kind, victim := kind, victim
+					cases = append(cases, explore.Case{ID: fmt.Sprintf("on-disk drop of %s (%s)", victim, kind), Nontrivial: true, Run: func() (string, []explore.Violation) { return runC18DiskDrop(kind, victim) }})
+				}
 			}
 			for _, k := range []int{1, 2} {
 				k := k
